@@ -68,6 +68,14 @@ func TestC06(t *testing.T) {
 		if err != nil || !c.ECHAccepted() {
 			ev.Violation(t, "C06", sc.replay(), "first hello not accepted: %v", err)
 		}
+		// the application looks at the names and edits its copy of the ALPN list (sort, filter):
+		// the retry rules keep comparing with what the client sent
+		if p := c.ALPNProtos(); rapid.Bool().Draw(t, "caller_edits_alpn") {
+			for i := range p {
+				p[i] = "edited-by-caller"
+			}
+			_ = c.ServerName()
+		}
 		// model state
 		var pendingClient []c06ClientRec // sent by the client, not yet read by the backend
 		pendingClient = append(pendingClient, c06ClientRec{kind: "first", bytes: sc.Record, wantInner: sc.WantInner})
